@@ -417,6 +417,13 @@ func (r *regulation) ruleFreshness(rule string) {
 			if st := isFieldStore(ins, mapField); st != nil {
 				return ir.AllTo(2, dirty)
 			}
+			// an in-place update of the map held in the field changes its outputs (and with them the runs of
+			// equal outputs the supported inputs are derived from) just as a new map does
+			if mu, ok := ins.(*ssa.MapUpdate); ok {
+				if t := r.tb.Of(mu.Map, nil); t.Op == "field:"+mapField && load_FuncPkgPath(ins.Parent()) == PkgCtrl {
+					return ir.AllTo(2, dirty)
+				}
+			}
 			if st := isFieldStore(ins, keyField); st != nil {
 				if _, lit := st.Addr.(*ssa.FieldAddr).X.(*ssa.Alloc); lit {
 					return nil
